@@ -63,14 +63,14 @@ func hashHeader(hd http.Header) uint64 {
 const c13ReadMax = 2 << 20
 
 type c13State struct {
-	run       *ev.Run
-	srv       *svc.Server
-	clients   []*c13Client
-	done      int64
-	inflight  int64
-	maxIn     int64
-	mu        sync.Mutex
-	kept      []*retained
+	run      *ev.Run
+	srv      *svc.Server
+	clients  []*c13Client
+	done     int64
+	inflight int64
+	maxIn    int64
+	mu       sync.Mutex
+	kept     []*retained
 }
 
 type c13Client struct {
